@@ -54,6 +54,11 @@ TREES = {
                F("r/sub/anch"), F("r/sub/skipme"), F("r/sub/b.log"), F("r/sub/keep.log"), F("r/x"),
                {"p": "r/sub2/.fdignore", "k": "file", "c": ["lit", "*.tmp\n"]}, F("r/sub2/a.tmp"),
                F("r/sub2/deep/b.tmp"), F("r/c.tmp"), F("r/sub2/a.log"), F("r/sub2/ok")],
+    # an ignore file with one line that is not a valid glob (unclosed class) among valid rules: the valid rules still
+    # apply (git and the ignore crate skip the bad line); a rule file is never dropped as a whole
+    "ignore_bad": [{"p": "r/.gitignore", "k": "file", "c": ["lit", "*.log\ncache[0-9\nout/\n"]},
+                   F("r/a.log"), F("r/keep"), F("r/cache1"), F("r/out/x"), F("r/sub/b.log"), F("r/sub/out/deep/y"), F("r/sub/z"),
+                   {"p": "r/sub2/.fdignore", "k": "file", "c": ["lit", "tmp[\n*.tmp\n"]}, F("r/sub2/a.tmp"), F("r/sub2/ok")],
     "links": [F("r/a/f1"), F("r/a/b/f2"), F("outside/o1"), F("outside/od/o2"),
               S("r/lrel", "a/f1"), S("r/labs", "@TREE@/r/a/b/f2"), S("r/dangling", "nowhere"),
               S("r/drel", "a/b"), S("r/dabs", "@TREE@/r/a"), S("r/loop", "."), S("r/a/up", ".."),
@@ -68,7 +73,7 @@ TREES = {
     # two sibling directories whose names differ only by case; cwd-relative patterns are tried from inside one of them
     "casecwd": [F("r/src/x"), F("r/src/d/x.txt"), F("R/src/x"), F("R/src/d/x.txt"), F("R/other/x")],
 }
-QUICK_TREES = ["nest", "ignore", "links", "names", "links2"]
+QUICK_TREES = ["nest", "ignore", "ignore_bad", "links", "names", "links2"]
 
 NAME_PATTERNS = ["x", "*.txt", "f?", "[fx]*", "{x,y}.txt", "X", "*.LOG", "\\x"]
 PATH_PATTERNS = ["r/**/x", "r/d1/*", "r/**/*.txt", "r/v.2/**", "r/ż/b*/x", "r/a.1*/x", "r/d-1/**", "r/v-2/**/x",
@@ -173,6 +178,8 @@ def ignored_by(rule, path, is_dir):
     name = os.path.basename(path)
     verdict = False
     for p in pats:
+        if p.count("[") != p.count("]"):
+            continue     # not a valid glob: the line is skipped (with a warning), the other lines still apply
         neg = p.startswith("!")
         if neg:
             p = p[1:]
@@ -396,7 +403,7 @@ def cases(tier, seed):
                         idx += 1
                         if quick and (hidden, no_ignore) == (True, True) and depth in (0, 3):
                             continue
-                        if tname == "ignore" and follow:
+                        if tname.startswith("ignore") and follow:
                             continue   # ignore files combined with followed links: outside the alphabet
                         o = {"depth": depth, "hidden": hidden, "no_ignore": no_ignore, "follow": follow, "report_links": rl}
                         variants = [({}, "", base_roots)]
@@ -415,7 +422,7 @@ def cases(tier, seed):
         # pattern sweep
         for lab, po, cwd in popts:
             for follow, rl in ((False, False), (True, False), (False, True), (True, True)):
-                if tname == "ignore" and follow:
+                if tname.startswith("ignore") and follow:
                     continue
                 for depth in (None, 2):
                     idx += 1
@@ -428,7 +435,7 @@ def cases(tier, seed):
             if cwd != "r" and lab not in ("none", "name", "path_abs", "exclude_abs"):
                 continue
             for follow in (False, True):
-                if tname == "ignore" and follow:
+                if tname.startswith("ignore") and follow:
                     continue
                 idx += 1
                 if quick and idx % 2:
